@@ -174,6 +174,17 @@ fn buffered_exec(out: &mut Out, ex: &[Value]) {
                     None
                 }
                 "is_exhausted" => Some(b.is_exhausted() as i32),
+                // the batch consumed through the provided Iterator methods (internal iteration)
+                "nf_fold" => {
+                    b.next_frames().fold((), |_, f| items.push(f));
+                    None
+                }
+                "nf_for_each" => {
+                    b.next_frames().for_each(|f| items.push(f));
+                    None
+                }
+                "nf_count" => Some(b.next_frames().count() as i32),
+                "nf_last" => Some(b.next_frames().last().unwrap_or(-1)),
                 "clone" => {
                     // continue with the clone (the instrumented source shares its pull counter with it)
                     b = b.clone();
@@ -305,6 +316,7 @@ fn gen(seed: u64, size: &str, path: &str) {
         for _ in 0..rng.range(10, if thorough { 300 } else { 120 }) {
             let k = rng.below(10);
             ex.push(if rng.chance(1, 20) { json!({"ev":"clone","a":{"x":0}}) }
+                    else if rng.chance(1, 12) { json!({"ev": *rng.pick(&["nf_fold", "nf_for_each", "nf_count", "nf_last"]), "a":{"x":0}}) }
                     else if k < 5 { json!({"ev":"next","a":{"x":0}}) }
                     else if k < 9 { json!({"ev":"next_frames","a":{"k": rng.below(cap as u64 + 3)}}) }
                     else { json!({"ev":"is_exhausted","a":{"x":0}}) });
